@@ -77,6 +77,8 @@ OnePair(mo) == IF mo \in PskModes
 SenderParams ==
     IF Shape = "one"
     THEN {SP(su, mo, OneInfo, OnePair(mo)) : su \in Suites, mo \in ModeSet}
+         \* deviation D2: a PSK mode with an EMPTY bundle is accepted by the library (and is not Base / Auth)
+         \cup {SP(su, mo, OneInfo, <<<<>>, <<>>>>) : su \in Suites, mo \in ModeSet \cap PskModes}
     ELSE UNION {{SP(su, mo, inf, pp) : su \in Suites, inf \in InfoVals, pp \in PairsFor(mo)} : mo \in ModeSet}
 
 \* the receiver that agrees with sender parameters p
